@@ -199,6 +199,15 @@ def run_unit(name, extra_args=(), variant=None, mutate_text=None, rlimit=None, s
                 kind = k
                 break
         spans = d.get("spans", [])
+        # a span inside a macro of another file (`unreachable!()`, `assert!` ..): the place that counts is where the unit's text uses it
+        def call_site(sp):
+            seen_ = 0
+            while os.path.basename(sp.get("file_name") or "") != os.path.basename(path) and sp.get("expansion") and seen_ < 20:
+                nxt = dict(sp["expansion"]["span"])
+                nxt["is_primary"], nxt["label"] = sp.get("is_primary"), sp.get("label")
+                sp, seen_ = nxt, seen_ + 1
+            return sp
+        spans = [call_site(sp) for sp in spans]
         prim = [s for s in spans if s.get("is_primary")]
         sec = [s for s in spans if not s.get("is_primary")]
         rendered = d.get("rendered", msg)
